@@ -105,8 +105,11 @@ func c07(args []string) {
 	// while it waits for its inputs (one slot, tasks in front of and behind a Concatenator)
 	{
 		in, o1 := []spec.PortDecl{{Name: "in"}}, []spec.PortDecl{{Name: "out"}}
-		s1 := &spec.Spec{Name: "streamthenbig", MaxTasks: 2, Sources: map[string]string{"t0.txt": "t0\n", "t1.txt": "t1\n"}}
-		s1.Procs = append(s1.Procs, &spec.Proc{Name: "src", Kind: spec.KFileSource, Files: []string{"t0.txt", "t1.txt"}},
+		// (one streamed item: with two, the second producer would hold a slot while it waits for its consumer, and the
+		// 2-core task taking its tokens one by one beside them is a combination the properties exclude - C17 holds
+		// "whenever enough task slots exist for each producer and its consumer to run at the same time")
+		s1 := &spec.Spec{Name: "streamthenbig", MaxTasks: 2, Sources: map[string]string{"t0.txt": "t0\n"}}
+		s1.Procs = append(s1.Procs, &spec.Proc{Name: "src", Kind: spec.KFileSource, Files: []string{"t0.txt"}},
 			&spec.Proc{Name: "SPR", Kind: spec.KCmd, Cores: 1, Cmd: spec.BuildCmd("SPR", in, []spec.PortDecl{{Name: "out", Stream: true}}, nil, nil, nil)},
 			&spec.Proc{Name: "SCO", Kind: spec.KCmd, Cores: 1, Cmd: spec.BuildCmd("SCO", in, o1, nil, nil, nil)},
 			&spec.Proc{Name: "BIG", Kind: spec.KCmd, Cores: 2, Cmd: spec.BuildCmd("BIG", in, o1, nil, nil, nil)})
